@@ -173,10 +173,25 @@ func zzvSANewWorld(t *testing.T, in *zzvSAIn, key, realCallbacks bool, seed int6
 	return w
 }
 
+// dial connects a puppet and waits until X has finished handlePeerConnected for it.  That callback runs
+// asynchronously after the handshake: it forwards a pending wake command to the new peer (OnPeerConnected) and then
+// sends the routing table (X has a local exit route, so a ROUTE_ADVERTISE always follows).  Without this wait a late
+// callback would forward a wake command accepted in the meantime to an "old" peer in the middle of a later step.
 func (w *zzvSAWorld) dial(name string) *zzvPuppet {
+	mark := w.lastSeq()
 	p := w.m.DialPuppet(name, "X")
 	if !zzvWaitFor(zzvSAWait, func() bool { return w.x.A.peerMgr.GetPeer(p.ID) != nil }) {
 		w.t.Fatalf("zzv: puppet %s not registered at X", name)
+	}
+	if !zzvWaitFor(zzvSAWait, func() bool {
+		for _, f := range w.m.Net.Frames() {
+			if f.Seq > mark && f.From == "X" && f.To == name && f.Type == protocol.FrameRouteAdvertise {
+				return true
+			}
+		}
+		return false
+	}) {
+		w.t.Fatalf("zzv: X sent no routing table to the new peer %s (end of handlePeerConnected not observable)", name)
 	}
 	return p
 }
@@ -350,18 +365,7 @@ func (w *zzvSAWorld) step(a zzvSAAct) (res string, fwd []string, detail string) 
 		w.nNew++
 		name := fmt.Sprintf("%s_%d", a.P, w.nNew)
 		mark := w.lastSeq()
-		p := w.dial(name)
-		// handlePeerConnected: OnPeerConnected (pending wake), then SendFullTable -> a ROUTE_ADVERTISE follows it
-		if !zzvWaitFor(zzvSAWait, func() bool {
-			for _, f := range w.m.Net.Frames() {
-				if f.Seq > mark && f.From == "X" && f.To == name && f.Type == protocol.FrameRouteAdvertise {
-					return true
-				}
-			}
-			return false
-		}) {
-			w.t.Fatalf("zzv: X sent no routing table to the new peer %s (end of handlePeerConnected not observable)", name)
-		}
+		p := w.dial(name) // returns after X's handlePeerConnected: OnPeerConnected (pending wake), then SendFullTable
 		res = "none"
 		set := map[string]bool{}
 		for _, f := range w.sleepWakeFrames(mark) {
